@@ -21,6 +21,7 @@ R5 registry: the 14 decorated classes are registered under their own name,
    get_config / from_config(classmethod).
 """
 import ast
+import itertools
 from fractions import Fraction as F
 
 from ..loader import AnalysisError
@@ -94,7 +95,11 @@ ALTS = {
         "negative_slope": [F(1, 4), F(1, 2)],
         "use_stochastic_rounding": [True],
         "relu_upper_bound": [(F(3, 2), dict(is_quantized_clip=False,
-                                            qnoise_factor=F(1, 2)))],
+                                            qnoise_factor=F(1, 2))),
+                             # the bound together with the default clip flag
+                             # (which has precedence over it)
+                             F(3, 2), (F(3, 2), dict(qnoise_factor=F(1, 2))),
+                             (F(1, 2), dict(bits=4, integer=2))],
         "is_quantized_clip": [(False, dict(qnoise_factor=F(1, 2)))],
         "qnoise_factor": [F(1, 2)],
         "var_name": ["v"], "use_ste": [False], "use_variables": [True]}),
@@ -148,6 +153,31 @@ def same_value(a, b):
     return a == b
   except Exception:  # pylint: disable=broad-except
     return False
+
+
+class _Probe(object):
+  """Stand-in report: only records whether anything failed."""
+
+  def __init__(self):
+    self.failed = False
+    self.extra = {}
+
+  def ok(self, *a, **k):
+    pass
+
+  def fail(self, *a, **k):
+    self.failed = True
+
+  def check(self, cond, *a, **k):
+    if not cond:
+      self.failed = True
+    return cond
+
+  def unit(self, *a, **k):
+    pass
+
+  def sample(self, *a, **k):
+    pass
 
 
 def roundtrip(rep, repo, mod, cls, kw, varied):
@@ -516,6 +546,45 @@ def run(rep, repo, tier):
     for cls, kw in qref.lattice_all("quick", with_f=False):
       roundtrip(rep, repo, mod, cls, dict(kw), None)
       npoints += 1
+    # every pair of option alternatives (an option may only matter - or only
+    # be mis-serialised - together with another one)
+    for cls in qref.ALL_QUANTIZERS:
+      base, alts = ALTS[cls]
+      params = [p for p, _ in mod.classes[cls].init_params()[0]]
+      flat = []
+      for p, vals in sorted(alts.items()):
+        if p not in params:
+          continue
+        for v in vals:
+          ctx = {}
+          if isinstance(v, tuple):
+            v, ctx = v
+          if not ctx:
+            flat.append((p, v))
+      single_ok = {}
+      for p1, v1 in flat:
+        pr = _Probe()
+        try:
+          roundtrip(pr, repo, mod, cls, dict(base, **{p1: v1}), p1)
+        except AnalysisError:
+          pr.failed = True
+        single_ok[(p1, repr(v1))] = not pr.failed
+      for (p1, v1), (p2, v2) in itertools.combinations(flat, 2):
+        if p1 == p2 or not (single_ok[(p1, repr(v1))] and
+                            single_ok[(p2, repr(v2))]):
+          continue    # each option alone is decided (and reported) above
+        kw = dict(base)
+        kw[p1], kw[p2] = v1, v2
+        pr = _Probe()
+        try:
+          roundtrip(pr, repo, mod, cls, kw, p1 + "+" + p2)
+        except AnalysisError:
+          continue    # the combination is rejected by the constructor
+        npoints += 1
+        if pr.failed:
+          roundtrip(rep, repo, mod, cls, kw, p1 + "+" + p2)
+        else:
+          rep.ok("R2")
   rep.extra["configuration_points"] = npoints
   rep.sample({"classes": list(qref.ALL_QUANTIZERS),
               "points": npoints,
